@@ -11,7 +11,8 @@ workbook order (re-ordered by this module), and - re-addressed by position - on 
 lazily opened workbook and its eagerly opened twin get the same history.  pydec/lazy_view.py decodes every written
 package; spec/Trace_Lazy.tla judges every step.
 """
-import io, json, os, re, shutil, zipfile
+import io, json, os, re, shutil, time, zipfile
+from concurrent.futures import ProcessPoolExecutor
 import vlib
 from pydec import lazy_view
 
@@ -209,9 +210,14 @@ def preflight(chk, tmp, files):
     res = vlib.run_cases("lazy", cases, timeout=60, jobs=min(8, len(cases)))
 
     def fine(evs, n):
-        return (len(evs) == n and all(e.get("a") != "Fatal" and e.get("outcome") == "ok" for e in evs)
+        if not (len(evs) == n and all(e.get("a") != "Fatal" and e.get("outcome") == "ok" for e in evs)
                 and all(e.get("tw_outcome", "ok") == "ok" for e in evs)
-                and evs[-1]["tw"]["outcome"] == "ok" and evs[-1]["lz"]["outcome"] == "ok")
+                and evs[-1]["tw"]["outcome"] == "ok" and evs[-1]["lz"]["outcome"] == "ok"):
+            return False
+        # no step may change what the eager workbook shows (a row insertion far below everything can still
+        # touch whole-column references and the like: then this file is not used for such steps)
+        orig = [s["v"] for s in evs[0]["orig"]]
+        return all([s["v"] for s in e["tobs"]] == orig for e in evs)
     info = {}
     for k, f in enumerate(files):
         a, b = res[2 * k], res[2 * k + 1]
@@ -239,12 +245,14 @@ def gen_cases(chk, tmp):
     if not r.ok or not r.replays:
         raise vlib.ToolError("replay generation failed: " + (r.violation or r.out[-500:]))
     replays = r.replays
-    if not quick and len(replays) > 24000:
-        replays = rng.sample(replays, 24000)
+    cap = 1800 if quick else 24000
+    total_paths = len(replays)
+    if len(replays) > cap:
+        replays = rng.sample(replays, cap)
     for rp in replays:
         cases.append({"src": gen_src_of_shape(rp[0]["orig"]), "steps": finish_history(rp[1:]), "kind": "tlc-path"})
     n1 = len(cases)
-    nsim = 250 if quick else 4000
+    nsim = 200 if quick else 4000
     rs = vlib.run_tlc("MC_Lazy", "MC_Lazy_sim.cfg", workers=1, coverage=False, simulate=f"num={nsim}",
                       extra=["-depth", "12", "-seed", str(chk.seed)], timeout=3000)
     if rs.rc != 0 or rs.violation or not rs.replays:
@@ -261,7 +269,7 @@ def gen_cases(chk, tmp):
     files = corpus_files(chk)
     info = preflight(chk, tmp, files)
     short = [rp[1:] for rp in r.replays if rp[0]["orig"] == r.replays[0][0]["orig"]]
-    per_file = 45 if quick else 400
+    per_file = 24 if quick else 400
     skipped = []
     for f in files:
         if not info[f]["usable"]:
@@ -290,6 +298,7 @@ def gen_cases(chk, tmp):
           if s["kind"] != "file" or os.path.exists(os.path.join(CORPUS, s["name"]))]
     cases = ex + cases
     chk.extra["cases"] = {"finding_exemplars": len(ex), "tlc_paths_on_generated_files": n1,
+                          "tlc_paths_enumerated": total_paths,
                           "tlc_simulated_histories_on_generated_files": n2 - n1, "histories_on_corpus_files": n3 - n2,
                           "corpus_files": [f for f in files if info[f]["usable"]],
                           "corpus_files_without_workbook_level_row_insertion": [f for f in files if info[f]["usable"] and not info[f]["wb_ok"]],
@@ -318,28 +327,47 @@ def judge(chk, cases, tmp):
         d = {"case": c["case"], "tmp": tmp,
              "steps": [{"a": "Open", "src": {"kind": "file", "path": srcs.path(c["steps"][0]["src"])}}] + c["steps"][1:]}
         dcases.append(d)
+    t0 = time.time()
     events = vlib.run_cases("lazy", dcases, timeout=120)
-    opkgs = {}
+    t1 = time.time()
+    # decode every package once (original files, files written by the lazy workbook and by the twin), in parallel
+    paths = set()
+    for evs in events:
+        for e in evs:
+            if e.get("a") == "Open" and e.get("file"):
+                paths.add(e["file"])
+            elif e.get("a") == "Save":
+                if e.get("outcome") == "ok":
+                    paths.add(e["file"])
+                if e.get("tw_outcome") == "ok":
+                    paths.add(e["twfile"])
+    paths = sorted(paths)
+    if len(paths) > 40:
+        with ProcessPoolExecutor(max_workers=6) as ex:
+            views = dict(zip(paths, ex.map(lazy_view.view_file, paths, chunksize=8)))
+    else:
+        views = {p: lazy_view.view_file(p) for p in paths}
     for evs in events:
         for e in evs:
             if e.get("a") == "Open":
-                p = e.get("file", "")
-                if p not in opkgs:
-                    opkgs[p] = lazy_view.view_file(p)
-                e["opkg"] = opkgs[p]
+                e["opkg"] = views.get(e.get("file", ""), lazy_view.empty())
             elif e.get("a") == "Save":
-                e["pkg"] = lazy_view.view_file(e["file"]) if e.get("outcome") == "ok" else lazy_view.empty()
+                e["pkg"] = views[e["file"]] if e.get("outcome") == "ok" else lazy_view.empty()
+                e["twpkg"] = views[e["twfile"]] if e.get("tw_outcome") == "ok" else lazy_view.empty()
                 for key in ("file", "twfile"):
                     p = e.get(key)
                     if p and p.startswith(tmp) and os.path.exists(p):
                         os.remove(p)
+    t2 = time.time()
     out = vlib.validate("Trace_Lazy", "Trace_Lazy.cfg", events, chk.open_ids, "c11", chunk_events=1500)
+    vlib.log(f"[c11] {len(cases)} histories: driver {t1 - t0:.1f}s, package decoding {t2 - t1:.1f}s, "
+             f"TLC trace validation {time.time() - t2:.1f}s")
     first = {}
     for ci, off, detail in out["mismatch"]:
         if ci not in first or off < first[ci][0]:
             first[ci] = (off, detail)
     for ci, (off, detail) in first.items():
-        if detail.startswith('<<"gen"'):
+        if re.match(r'^<<\s*"gen"', detail):
             raise vlib.ToolError(f"generator produced a step this check cannot judge (case {ci}: "
                                  f"{json.dumps(cases[ci]['steps'])[:600]}, step {off}): {detail}")
     chk.process_validation(out, cases, events, "lazy", describe)
